@@ -208,6 +208,35 @@ theorem left_join_shape {db : Db} (hdb : DbOK db) {sch : Sched} (hs : ValidSched
     simp [joinSem, specMap, specFilter, fromSem, wantsLeft, wantsRight, From.width]
   rw [hsem, countRow_app]
 
+/-- inner JOIN: exactly the pairs on which ON is TRUE (`innerJoin_sql`) -/
+theorem innerJoin_sql {db : Db} (hdb : DbOK db) {sch : Sched} (hs : ValidSched sch) (m : SinkMode) (opt : Bool)
+    (a b : Nat) (on : SExpr) (hon : predOK on = true) (rows : List VRow)
+    (h : runQueryMode m sch opt ⟨.join .inner (.tbl a) (.tbl b) on, none, none⟩ db = some rows) :
+    SameBag rows (innerPart on [] (tableRows db a) (tableRows db b)) := by
+  have hq : (⟨.join .inner (.tbl a) (.tbl b) on, none, none⟩ : JQuery).ok = true := by
+    simp [JQuery.ok, From.ok, hon]
+  have hsem : joinSem ⟨.join .inner (.tbl a) (.tbl b) on, none, none⟩ db =
+      innerPart on [] (tableRows db a) (tableRows db b) := by
+    simp [joinSem, specMap, specFilter, fromSem, wantsLeft, wantsRight]
+  rw [← hsem]
+  exact join_sql_mode hdb hs m opt _ hq rows h
+
+/-- RIGHT JOIN: the matching pairs plus every right row without a partner, once, NULL-padded -/
+theorem right_join_shape {db : Db} (hdb : DbOK db) {sch : Sched} (hs : ValidSched sch) (m : SinkMode) (opt : Bool)
+    (a b : Nat) (on : SExpr) (hon : predOK on = true) (rows : List VRow)
+    (h : runQueryMode m sch opt ⟨.join .right (.tbl a) (.tbl b) on, none, none⟩ db = some rows) (row : VRow) :
+    countRow row rows =
+      countRow row (innerPart on [] (tableRows db a) (tableRows db b)) +
+      countRow row (rightPart on [] (tableWidth db a) (tableRows db a) (tableRows db b)) := by
+  have hq : (⟨.join .right (.tbl a) (.tbl b) on, none, none⟩ : JQuery).ok = true := by
+    simp [JQuery.ok, From.ok, hon]
+  rw [join_sql_mode hdb hs m opt _ hq rows h row]
+  have hsem : joinSem ⟨.join .right (.tbl a) (.tbl b) on, none, none⟩ db =
+      innerPart on [] (tableRows db a) (tableRows db b) ++
+        rightPart on [] (tableWidth db a) (tableRows db a) (tableRows db b) := by
+    simp [joinSem, specMap, specFilter, fromSem, wantsLeft, wantsRight, From.width]
+  rw [hsem, countRow_app]
+
 /-- FULL OUTER JOIN: … plus every right row without a partner, once, NULL-padded -/
 theorem full_join_shape {db : Db} (hdb : DbOK db) {sch : Sched} (hs : ValidSched sch) (opt : Bool)
     (a b : Nat) (on : SExpr) (hon : predOK on = true) (rows : List VRow)
